@@ -2,6 +2,7 @@ package rules
 
 import (
 	"fmt"
+	"go/constant"
 	"go/token"
 	"strings"
 
@@ -239,7 +240,7 @@ func (c *Ctx) guardedMutations(rule string, fn *ssa.Function, construct, what st
 		if ce.If == nil {
 			return false
 		}
-		return isEvidence(ce)
+		return isEvidence(ce) || boolPhiEvidence(ce, isEvidence)
 	}}
 	cnt, nEv := 0, 0
 	ok, det := true, ""
@@ -320,11 +321,8 @@ func checkC09(c *Ctx) {
 	if ab != nil {
 		// K0: duplicate check before mutation
 		c.guardedMutations("K0.guard", ab, "not-duplicate", "entries are appended only behind the edge on which the duplicate check failed to find the entry", func(ce ir.CondEdge) bool {
-			call := callOf(ce.Cond)
-			if call == nil || ir.CallID(call) != sigPkg+".SignatureList.Exists" {
-				return false
-			}
-			return !ce.Truth
+			found, ok := c.membershipEdge(ce)
+			return ok && !found
 		}, nil)
 		// SHA-256 entries are 32 bytes
 		c.sha256Len(ab)
@@ -352,8 +350,8 @@ func checkC09(c *Ctx) {
 	}
 	if rb != nil {
 		c.guardedMutations("K0.guard", rb, "found", "an entry is removed only behind the edge on which it was found", func(ce ir.CondEdge) bool {
-			call := callOf(ce.Cond)
-			return call != nil && ir.CallID(call) == sigPkg+".SignatureList.Exists" && ce.Truth
+			found, ok := c.membershipEdge(ce)
+			return ok && found
 		}, nil)
 		c.orderPreservingRemoval(rb)
 	}
@@ -1008,4 +1006,103 @@ func localOperands(v ssa.Value) map[ssa.Value]bool {
 	}
 	walk(v, 0)
 	return out
+}
+
+// boolPhiEvidence: the tested value is a boolean computed earlier with || (a
+// phi of the constant true from the blocks where an operand held, and the last
+// operand). On its true edge one of the operands held; the edge is evidence if
+// every operand is.
+func boolPhiEvidence(ce ir.CondEdge, isEvidence func(ir.CondEdge) bool) bool {
+	ph, ok := ce.Cond.(*ssa.Phi)
+	if !ok || !ce.Truth || !isBoolType(ph.Type()) {
+		return false
+	}
+	n := 0
+	for k, ev := range ph.Edges {
+		pred := ph.Block().Preds[k]
+		if kc, isK := ev.(*ssa.Const); isK {
+			if kc.Value == nil || !constant.BoolVal(kc.Value) {
+				continue // contributes false: not on the true edge
+			}
+			ifi, isIf := pred.Instrs[len(pred.Instrs)-1].(*ssa.If)
+			if !isIf {
+				return false
+			}
+			core, neg := ir.Peel(ifi.Cond)
+			truth := pred.Succs[0] == ph.Block()
+			if !isEvidence(ir.CondEdge{Edge: ir.Edge{From: pred.Index, To: ph.Block().Index}, If: ifi, Cond: core, Truth: truth != neg, RawCond: ifi.Cond, RawTruth: truth}) {
+				return false
+			}
+			n++
+			continue
+		}
+		core, neg := ir.Peel(ev)
+		if !isEvidence(ir.CondEdge{Edge: ce.Edge, If: ce.If, Cond: core, Truth: !neg, RawCond: ev, RawTruth: true}) {
+			return false
+		}
+		n++
+	}
+	return n > 0
+}
+
+// membershipEdge: the edge tests the outcome of the list's membership search —
+// Exists (found, index), or a library helper of the package that compares the
+// entry's data with the stored entries and returns found/index. Reports whether
+// the edge is the "found" side.
+func (c *Ctx) membershipEdge(ce ir.CondEdge) (found bool, ok bool) {
+	isSearch := func(call *ssa.Call) bool {
+		if call == nil {
+			return false
+		}
+		if ir.CallID(call) == sigPkg+".SignatureList.Exists" {
+			return true
+		}
+		callee := ir.Callee(call)
+		if callee == nil || callee.Pkg == nil || callee.Pkg.Pkg.Path() != sigPkg {
+			return false
+		}
+		hit := false
+		for _, g := range c.cone(callee) {
+			instrsOf(g, func(i ssa.Instruction) {
+				if cl, isC := i.(*ssa.Call); isC && (ir.CallID(cl) == "bytes.Equal" || ir.CallID(cl) == "bytes.Compare") {
+					for _, a := range cl.Call.Args {
+						if ir.HasField(c.sliceOf(a), sigPkg+".SignatureData.Data") {
+							hit = true
+						}
+					}
+				}
+			})
+		}
+		return hit
+	}
+	// boolean outcome
+	if call := callOf(ce.Cond); call != nil && isBoolType(ce.Cond.Type()) {
+		if isSearch(call) {
+			return ce.Truth, true
+		}
+		return false, false
+	}
+	// index outcome compared with a constant
+	bo, isB := ce.Cond.(*ssa.BinOp)
+	if !isB {
+		return false, false
+	}
+	x, y, op := ir.StripConv(bo.X), ir.StripConv(bo.Y), bo.Op
+	if _, isK := ir.ConstInt(x); isK {
+		x, y, op = y, x, flip(op)
+	}
+	k, isK := ir.ConstInt(y)
+	if !isK || !isSearch(callOf(x)) || !isNumeric(x.Type()) {
+		return false, false
+	}
+	if !ce.Truth {
+		op = negate(op)
+	}
+	switch {
+	case op == token.GEQ && k == 0, op == token.GTR && k == -1, op == token.NEQ && k == -1:
+		return true, true
+	case op == token.LSS && k == 0, op == token.LEQ && k == -1, op == token.EQL && k == -1:
+		return false, true
+	}
+	return false, false
 }
